@@ -85,6 +85,9 @@ struct to_integer_options {
     /// On overflow, consume all digits and clamp: end points behind the digits and value
     /// is numeric_limits::max() or, after a '-', min() instead of str.data() and 0 (strtol, ...)
     bool saturate_on_overflow = false;
+
+    /// Accept a leading '-' for unsigned types, the value is negated in that type (strtoul, stoul, ...)
+    bool negate_unsigned = false;
 };
 
 /// \brief Grammar of the C library functions strtol, strtoul, atoi, ... (ISO C 7.22.1.4)
@@ -94,6 +97,7 @@ inline constexpr auto to_integer_c_options = to_integer_options{
     .allow_plus_sign      = true,
     .allow_base_prefix    = true,
     .saturate_on_overflow = true,
+    .negate_unsigned      = true,
 };
 
 enum struct to_integer_error : unsigned char {
@@ -136,8 +140,8 @@ template <integral Int, to_integer_options Options = to_integer_options{}>
         return makeError(to_integer_error::invalid_input);
     }
 
-    // optional minus for signed types, optional plus
-    auto const hasMinus = signed_integral<Int> and str[pos] == '-';
+    // optional minus, optional plus
+    auto const hasMinus = (signed_integral<Int> or Options.negate_unsigned) and str[pos] == '-';
     auto const hasPlus  = Options.allow_plus_sign and str[pos] == '+';
     if (hasMinus or hasPlus) {
         if (++pos == length) {
@@ -145,7 +149,7 @@ template <integral Int, to_integer_options Options = to_integer_options{}>
             return makeError(to_integer_error::invalid_input);
         }
     }
-    [[maybe_unused]] auto const positive = not hasMinus;
+    auto const positive = not hasMinus;
 
     // optional prefix, only if a hex digit follows: "0xg" is the number 0 followed by "xg"
     if constexpr (Options.allow_base_prefix) {
@@ -215,10 +219,17 @@ template <integral Int, to_integer_options Options = to_integer_options{}>
         }
     }
 
+    if constexpr (not signed_integral<Int>) {
+        if (not positive and not overflow) {
+            value = static_cast<Int>(Int(0) - value);
+        }
+    }
+
     auto const end = etl::next(str.data(), static_cast<etl::ptrdiff_t>(pos));
     if constexpr (Options.saturate_on_overflow) {
         if (overflow) {
-            auto const limit = positive ? numeric_limits<Int>::max() : numeric_limits<Int>::min();
+            auto const negative = signed_integral<Int> and not positive;
+            auto const limit    = negative ? numeric_limits<Int>::min() : numeric_limits<Int>::max();
             return {.end = end, .error = to_integer_error::overflow, .value = limit};
         }
     }
